@@ -7,6 +7,9 @@ Open Scope Q_scope.
 Definition xtol_default : Q := 7737125245533627 # 77371252455336267181195264.   (* 1e-10 *)
 Definition isclose_atol : Q := 3022314549036573 # 302231454903657293676544.      (* 1e-8 *)
 Definition isclose_rtol : Q := 5902958103587057 # 590295810358705651712.         (* 1e-5 *)
+(* value-preserving normalisation of midpoints (a + b) / 2: keeps rationals in lowest terms so that
+   evaluation does not blow up; a no-op on the values (norm x == x) *)
+Definition norm (x : Q) : Q := Qred x.
 (* np.sign *)
 Definition Qsgn (x : Q) : Q := if Qltb 0 x then 1 else if Qltb x 0 then -1 else 0.
 (* np.isclose(a, b): |a - b| <= atol + rtol * |b| *)
@@ -16,11 +19,11 @@ Definition isclose (a b : Q) : bool := Qleb (Qabs (a - b)) (isclose_atol + isclo
    lowest terms (Qred, value-preserving) so that evaluation does not blow up. *)
 Fixpoint find_root_loop (fuel : nat) (f : Q -> Q) (xa xe : Q) (find_first : bool) (xtol : Q) : Q :=
   match fuel with
-  | O => Qred ((xa + xe) / 2)
+  | O => norm ((xa + xe) / 2)
   | S k =>
-    if Qltb (Qabs (xa - xe)) xtol then Qred ((xa + xe) / 2)
+    if Qltb (Qabs (xa - xe)) xtol then norm ((xa + xe) / 2)
     else
-      let xm := Qred ((xa + xe) / 2) in
+      let xm := norm ((xa + xe) / 2) in
       if Qltb (f xm) 0 then find_root_loop k f xm xe find_first xtol
       else if Qltb 0 (f xm) then find_root_loop k f xa xm find_first xtol
       else if find_first then find_root_loop k f xa xm find_first xtol
@@ -43,21 +46,21 @@ Section WithCarrier.
     if ((len (pos s) =? 0) || (len (neg s) =? 0))%Z then Raise else
     let p0 := nthZ (pos s) 0 in let pl := nthZ (pos s) (len (pos s) - 1) in
     let n0 := nthZ (neg s) 0 in let nl := nthZ (neg s) (len (neg s) - 1) in
-    if Qltb nl p0 && label_eqb (score_class s) Pos then Ret ((p0 + nl) / 2, 0)
-    else if Qltb pl n0 && label_eqb (score_class s) Neg then Ret ((pl + n0) / 2, 0)
+    if Qltb nl p0 && label_eqb (score_class s) Pos then Ret (norm ((p0 + nl) / 2), 0)
+    else if Qltb pl n0 && label_eqb (score_class s) Neg then Ret (norm ((pl + n0) / 2), 0)
     else
       let sign := - Qsgn (t_fpr s 0 - t_fnr s 0) in
       let f := fun x => sign * (t_fpr s x - t_fnr s x) in
       let max_eer := Qmin2 (hard_pos_ratio s) (hard_neg_ratio s) in
       if Qltb (f max_eer) 0 then
         if isclose (hard_pos_ratio s) (hard_neg_ratio s)
-        then Ret ((t_fpr s max_eer + t_fnr s max_eer) / 2, max_eer)
+        then Ret (norm ((t_fpr s max_eer + t_fnr s max_eer) / 2), max_eer)
         else if Qltb (hard_pos_ratio s) (hard_neg_ratio s)
         then Ret (t_fpr s (hard_pos_ratio s), hard_pos_ratio s)
         else Ret (t_fnr s (hard_neg_ratio s), hard_neg_ratio s)
       else
         match find_root fuel f 0 max_eer true xtol_default, find_root fuel f 0 max_eer false xtol_default with
-        | Ret lft, Ret rgt => let e := Qred ((lft + rgt) / 2) in Ret (t_fpr s e, e)
+        | Ret lft, Ret rgt => let e := norm ((lft + rgt) / 2) in Ret (t_fpr s e, e)
         | _, _ => Raise
         end.
 End WithCarrier.
